@@ -115,6 +115,22 @@ def run(ctx):
                         acts += [a for a in h["acts"] if a["a"] != "start"] + [{"a": "deliver", "d": d, "k": 0} for _ in range(3) for d in ("c2s", "s2c")]
                         jobs.append({"mode": "layer", "p": pp, "acts": acts})
                         nretry += 1
+                    # ... and the server's state (what it holds of the request body / the response it is sending) before the n-th
+                    # request message from the end
+                    c2s_total = sum(1 for a in h["acts"] if a["a"] == "deliver" and a["d"] == "c2s")
+                    for back in (1, 2):
+                        if c2s_total - back < 1:
+                            continue
+                        acts, cnt = [], 0
+                        for a in h["acts"]:
+                            if a["a"] == "deliver" and a["d"] == "c2s":
+                                cnt += 1
+                                if cnt == c2s_total - back + 1:
+                                    acts.append({"a": "stalesrv", "d": "c2s", "k": 0})
+                            acts.append(a)
+                        acts += [{"a": "deliver", "d": d, "k": 0} for _ in range(8) for d in ("c2s", "s2c")]
+                        jobs.append({"mode": "layer", "p": pp, "acts": acts})
+                        nretry += 1
                     # directed: the transfer is abandoned after the n-th response (the peer goes silent, the caller gives up), the
                     # transfer timeout elapses WITHOUT a sweep, and the application retries with the same token
                     ns2c = sum(1 for a in h["acts"] if a["a"] == "deliver" and a["d"] == "s2c")
